@@ -30,7 +30,7 @@ RULE = ("seeded random graphs: grid with one grid meter or 1-4 arbitrary success
         "dedicated / mixed / load-only meters, battery inverters with 1-2 batteries, PV inverters, EV chargers, CHPs "
         "behind a CHP meter. distinct = canonical graph+assignment JSON; non-trivial = >=2 device classes present "
         "and >=1 meter")
-REQUIRED_BUCKETS = ["battery-fed-by-inverters-behind-different-meters", "graph-object-refreshed-from-another-topology", "formula-for-a-sub-set-of-the-devices", "no-grid-meter", "single-grid-meter", "several-grid-successors", "nested-meters",
+REQUIRED_BUCKETS = ["battery-fed-by-inverters-behind-different-meters", "graph-object-refreshed-from-another-topology", "battery-pool-store-for-all-batteries", "formula-for-a-sub-set-of-the-devices", "no-grid-meter", "single-grid-meter", "several-grid-successors", "nested-meters",
                     "device-directly-under-grid", "grid-meter-over-one-device-kind-with-building-load", "mixed-meter", "dedicated-meter", "load-only-meter", "has-chp",
                     "has-battery", "has-pv", "has-ev", "fallback-formula-evaluated", "battery-behind-several-inverters"]
 REQUIRED_COUNTERS = ["formulas_evaluated", "balance_checks", "graphs_valid"]
@@ -212,6 +212,40 @@ def _evaluate(engine: Any, values: dict[int, float | None], rec: Any, depth: int
     return stack[0]
 
 
+def _pool_power_engine(empty_set: bool) -> Any:
+    """The FormulaEngine behind BatteryPool.power for a reference store created for all batteries of the graph."""
+    import asyncio
+    from datetime import timedelta
+
+    from ..vloop import run_virtual
+
+    out: dict[str, Any] = {}
+
+    async def main() -> None:
+        from frequenz.channels import Broadcast
+
+        from frequenz.sdk._internal._channels import ChannelRegistry
+        from frequenz.sdk.timeseries.battery_pool import BatteryPool
+        from frequenz.sdk.timeseries.battery_pool._battery_pool_reference_store import BatteryPoolReferenceStore
+
+        store = BatteryPoolReferenceStore(
+            channel_registry=ChannelRegistry(name="vf"), resampler_subscription_sender=Broadcast(name="rs").new_sender(),
+            batteries_status_receiver=Broadcast(name="st").new_receiver(limit=1),
+            power_manager_requests_sender=Broadcast(name="pm").new_sender(),
+            power_manager_bounds_subscription_sender=Broadcast(name="pb").new_sender(),
+            power_distribution_results_fetcher=MagicMock(), min_update_interval=timedelta(seconds=0.2),
+            batteries_id=set() if empty_set else None)
+        try:
+            out["engine"] = BatteryPool(pool_ref_store=store, name="vf", priority=0, set_operating_point=False).power
+        except Exception as e:  # pylint: disable=broad-except
+            out["engine"] = e
+        await asyncio.sleep(0)
+        await store.stop()
+
+    run_virtual(main)
+    return out.get("engine")
+
+
 def check(case: dict[str, Any], rec: Any) -> None:
     from frequenz.sdk._internal._channels import ChannelRegistry
     from frequenz.sdk.microgrid import connection_manager
@@ -325,6 +359,12 @@ def check(case: dict[str, Any], rec: Any) -> None:
         sub_i = sorted(n for n, g in grp_of.items() if g in chosen and kinds[n] == "batinv")
         subsets["battery"] = (BatteryPowerFormula, sub_b, lambda own, sub_i=sub_i: sum(own[n] for n in sub_i))
     shown = None
+    pool_engine: Any = None
+    if bat_ids and (len(case["edges"]) + len(kinds)) % 4 == 0:
+        # the battery pool's power formula as the pool itself asks for it: through a real BatteryPoolReferenceStore that
+        # was created for "all batteries" - spelled None or as an empty set (both documented to mean all of them)
+        pool_engine = _pool_power_engine((len(case["edges"]) // 2) % 2 == 0)
+        rec.bucket("battery-pool-store-for-all-batteries")
     for assign in case["assigns"]:
         own = {int(k): v for k, v in assign["own"].items()}
         load = {int(k): v for k, v in assign["load"].items()}
@@ -351,6 +391,20 @@ def check(case: dict[str, Any], rec: Any) -> None:
             and {kinds[c] for c in children[gsucc[0]]} <= {"batinv", "pvinv", "ev"})
         if loaded_single_kind_grid_meter:
             rec.bucket("grid-meter-over-one-device-kind-with-building-load")
+        if pool_engine is not None and not isinstance(pool_engine, Exception):
+            wp = {"formula": "battery pool power (store for all batteries)", "nodes": case["nodes"], "edges": case["edges"],
+                  "own": assign["own"], "load": assign["load"], "expected": truth["battery"], "engine": str(pool_engine)}
+            try:
+                val = _evaluate(pool_engine, values, rec)
+                rec.count("formulas_evaluated")
+                if not (val == val) or not math.isclose(val, truth["battery"], abs_tol=1e-6):
+                    rec.violation("formula-differs-from-true-total", {**wp, "got": None if val != val else val})
+            except Exception as e:  # pylint: disable=broad-except
+                from ..common import HarnessError, raised_in_repo
+
+                if not raised_in_repo(e):
+                    raise HarnessError(f"{type(e).__name__}: {e}") from e
+                rec.violation("formula-generation-or-evaluation-raised", {**wp, "error": f"{type(e).__name__}: {e}"[:300]})
         for fb in (True, False, "primaries-failed"):
             if False and fb == "primaries-failed" and loaded_single_kind_grid_meter:  # (no longer excused, see DESIGN 8.2)
                 # with that meter failed its unmetered load is not observable from any other component: there is
